@@ -10,5 +10,29 @@ CLAIMS = {
         "note": TRUST + "keyed MD5 changes when any covered bit changes",
         "technique": "value-flow terms + path-condition dominance on the ast (static analysis)",
     },
+    "C09": {
+        "text": "Interprocedural may-raise analysis (taint from data_received through the queue, value kinds, length facts incl. the V3 "
+                "producer invariant, environment raisers) shows that for every peer byte sequence the exception classes escaping "
+                "LAN.send / LAN.authenticate / Device.authenticate / Device._send_command stay inside the allowed sets. "
+                "Over-approximates paths (no feasibility reasoning), so 'holds' covers all inputs; library behaviour comes from a frozen model.",
+        "note": TRUST + "library model sa/libmodel.py; unknown library calls on tainted data are assumed benign and listed in the evidence",
+        "technique": "taint + length-fact + may-raise effect analysis over the call graph (static analysis)",
+    },
+    "C14": {
+        "text": "Same effect analysis with source = every byte string Device._send_command can return (any length, any content): the "
+                "may-raise set of refresh/apply/get_capabilities/toggle_display/start_self_clean is empty, and the per-frame try/except "
+                "sits inside the frame loop and continues. Every constant-index subscript, struct.unpack, enum construction and "
+                "explicit raise on response data is an examined site (proved by a length/membership fact or contained by a handler).",
+        "note": TRUST + "library model sa/libmodel.py",
+        "technique": "taint + length-fact + may-raise effect analysis over the call graph (static analysis)",
+    },
+    "C18": {
+        "text": "De-duplication decided from path conditions (task creation dominated by `source address not in seen set`, address added on "
+                "every creating path, one create_task site, gathered task set); per-host containment decided by the may-raise analysis "
+                "with the datagram as taint source (escape set of datagram_received and of the per-host coroutine is empty); no shared "
+                "per-host state (who-writes).",
+        "note": TRUST + "library model; asyncio.gather re-raises the first task exception; interleavings need no exploration once hosts share no state",
+        "technique": "path-condition dominance + taint/may-raise effect analysis + who-writes (static analysis)",
+    },
 }
 NOT_APPLICABLE = {}
